@@ -65,13 +65,14 @@ func (o *odometer) next() bool {
 }
 
 type c01Cfg struct {
-	topo   int
-	byRef  bool
-	k      int
-	per    int  // calls per caller (0 = 1), all of one method when plain
-	plain  bool // the calls carry no metadata and no deadline
-	dead   int  // further callers whose context has already ended (the transport tests the context of a Write)
-	doomed int  // calls in flight on an EARLIER connection of the same Server whose transport then fails
+	topo    int
+	byRef   bool
+	k       int
+	per     int  // calls per caller (0 = 1), all of one method when plain
+	plain   bool // the calls carry no metadata and no deadline
+	dead    int  // further callers whose context has already ended (the transport tests the context of a Write)
+	doomed  int  // calls in flight on an EARLIER connection of the same Server whose transport then fails
+	faulted int  // callers whose request Write delivers the envelope and then reports an error
 }
 
 func (c c01Cfg) tags() []string {
@@ -88,6 +89,9 @@ func (c c01Cfg) tags() []string {
 	}
 	if c.doomed > 0 {
 		out = append(out, fmt.Sprintf("doomed-connection=%d", c.doomed))
+	}
+	if c.faulted > 0 {
+		out = append(out, "write-fault:ack-lost")
 	}
 	return out
 }
@@ -376,6 +380,9 @@ func TestC01(t *testing.T) {
 			cfgs = append(cfgs, c01Cfg{topo: topo, byRef: true, k: 2, per: 2, plain: true})
 		}
 	}
+	// the Write of a request delivers the envelope and then reports an error (acknowledgement lost), next to ordinary calls
+	cfgs = append(cfgs, c01Cfg{topo: 0, byRef: false, k: 1, faulted: 1}, c01Cfg{topo: 0, byRef: true, k: 2, faulted: 1},
+		c01Cfg{topo: 2, byRef: false, k: 1, faulted: 1}, c01Cfg{topo: 1, byRef: true, k: 1, faulted: 1}, c01Cfg{topo: 0, k: 0, faulted: 2})
 	// callers whose context has already ended, next to calls in flight
 	cfgs = append(cfgs, c01Cfg{topo: 0, byRef: false, k: 2, dead: 1}, c01Cfg{topo: 0, byRef: true, k: 1, dead: 2},
 		c01Cfg{topo: 2, byRef: true, k: 2, dead: 1}, c01Cfg{topo: 1, byRef: false, k: 1, per: 2, plain: true, dead: 1})
@@ -403,6 +410,9 @@ func TestC01(t *testing.T) {
 			}
 			for d := 0; d < cfg.dead; d++ {
 				progs = append(progs, []syCop{{Op: "invoke", Pay: syBytes(rng, 17), M: d, Dead: 1 + d%2}})
+			}
+			for d := 0; d < cfg.faulted; d++ {
+				progs = append(progs, []syCop{{Op: "invoke", Pay: syBytes(rng, 17), M: d, Dead: 4}})
 			}
 			steps, complete, _ := runC01Lock(t, cfg, progs, func(step int, en []syAct) int {
 				// callers first (their order fixes the ids), then every order of the rest
@@ -544,6 +554,11 @@ func TestC01(t *testing.T) {
 				progs[j] = append(progs[j], syCop{Op: "invoke", Pay: syBytes(rng, syPickSize(rng)), M: m, Plain: plain})
 				ncalls++
 			}
+		}
+		if i%4 == 1 && rng.Intn(2) == 0 {
+			cfg.faulted = 1
+			at := rng.Intn(len(progs) + 1)
+			progs = append(progs[:at], append([][]syCop{{{Op: "invoke", Pay: syBytes(rng, 17), M: rng.Intn(syNUnary), Dead: 4}}}, progs[at:]...)...)
 		}
 		for d := 0; d < cfg.dead; d++ {
 			var p []syCop
